@@ -418,9 +418,13 @@ impl Discrete<u64, f64> for Hypergeometric {
     ///
     /// where `N` is population, `K` is successes, and `n` is draws
     fn ln_pmf(&self, x: u64) -> f64 {
-        factorial::ln_binomial(self.successes, x)
-            + factorial::ln_binomial(self.population - self.successes, self.draws - x)
-            - factorial::ln_binomial(self.population, self.draws)
+        if x > self.draws {
+            f64::NEG_INFINITY
+        } else {
+            factorial::ln_binomial(self.successes, x)
+                + factorial::ln_binomial(self.population - self.successes, self.draws - x)
+                - factorial::ln_binomial(self.population, self.draws)
+        }
     }
 }
 
